@@ -111,21 +111,6 @@ def run(ctx) -> None:
               'own-trial selection dominates the pool selection, which dominates the algorithm call',
               'the three sources are not consulted in the documented order',
               construct='source-order', func=fi.qualname)
-  # algorithm asked for the missing amount
-  cnt_ok = False
-  for n in g.nodes:
-    for c in flow.node_calls(n):
-      if (dotted(c.func) or '').endswith('SuggestRequest'):
-        for k in c.keywords:
-          if k.arg == 'count' and isinstance(k.value, ast.BinOp) and isinstance(k.value.op, ast.Sub) \
-              and dotted(k.value.left) == 'request.suggestion_count' and isinstance(k.value.right, ast.Call) \
-              and dotted(k.value.right.func) == 'len':
-            cnt_ok = True
-  ctx.check(cnt_ok, 'R1', 'algorithm asked for suggestion_count - len(collected)', fi.node,
-            'count = request.suggestion_count - len(<hand-out list>)',
-            'the algorithm is not asked for exactly the missing number of suggestions',
-            construct='count', func=fi.qualname)
-
   # ------------------------------------------------------------------ R2
   n_resp = 0
   out_lists: Set[str] = set()
@@ -276,7 +261,98 @@ def r45_handout(ctx, svc, fi, g, dom, prov, algo, out_lists) -> None:
   appenders = [n for n in g.nodes for c in flow.node_calls(n)
                if isinstance(c.func, ast.Attribute) and c.func.attr in ('append', 'extend') and isinstance(c.func.value, ast.Name)
                and c.func.value.id in out_lists]
-  handouts = []  # (loop ast, list name, form, bound expr, node)
+  # R1: the algorithm is asked for the *current* missing count
+  cnt_ok, cnt_why = False, 'no SuggestRequest(count=...) found'
+  for n in g.nodes:
+    for c in flow.node_calls(n):
+      if (dotted(c.func) or '').endswith('SuggestRequest'):
+        for k in c.keywords:
+          if k.arg != 'count':
+            continue
+          vals = [(k.value, n)]
+          if isinstance(k.value, ast.Name):
+            vals = [(d.value, g.nodes[d.node_id]) for d in rd.at(n, k.value.id) if d.node_id >= 0 and d.value is not None]
+          shape = bool(vals) and all(_is_missing_count(v, out_lists) for v, _ in vals)
+          stale = None
+          for v, dn in vals:
+            if dn is n:
+              continue
+            after = g.reachable([dn])
+            for a in appenders:
+              if a in after and n in g.reachable([a]):
+                stale = a
+          cnt_ok = shape and stale is None
+          cnt_why = ('count is `%s`, not request.suggestion_count - len(<hand-out list>)' % unparse(k.value, 50)) if not shape else \
+              f'the count was computed before the hand-out list grew (append at line {stale.lineno})' if stale is not None else ''
+  ctx.check(cnt_ok, 'R1', 'algorithm asked for suggestion_count - len(collected)', fi.node,
+            'count = request.suggestion_count - len(<hand-out list>) at the time of the request',
+            'the algorithm is not asked for exactly the missing number of suggestions: ' + cnt_why,
+            construct='count', func=fi.qualname)
+  # ---- hand-out loops
+  class _NoEval(Exception):
+    pass
+
+  def concrete(e: ast.AST, node, env: Dict[str, object], stale_sink: List, depth: int = 0):
+    """Evaluates list/slice/count arithmetic on a finite model: env maps list names to concrete lists,
+    'M' to the current missing count.  Locals are followed through their (unique) reaching definition."""
+    if depth > 10:
+      raise _NoEval('too deep')
+    if _is_missing_count(e, out_lists):
+      stale_sink.append((e, node))
+      return env['M']
+    if isinstance(e, ast.Constant) and isinstance(e.value, int):
+      return e.value
+    if isinstance(e, ast.Name):
+      if e.id in env:
+        return env[e.id]
+      defs = [d for d in rd.at(node, e.id) if d.node_id >= 0 and d.value is not None and d.kind == 'assign']
+      if len(defs) != 1:
+        raise _NoEval(f'`{e.id}` has {len(defs)} reaching definitions')
+      return concrete(defs[0].value, g.nodes[defs[0].node_id], env, stale_sink, depth + 1)
+    if isinstance(e, ast.Subscript) and isinstance(e.slice, ast.Slice):
+      base = concrete(e.value, node, env, stale_sink, depth + 1)
+      lo = concrete(e.slice.lower, node, env, stale_sink, depth + 1) if e.slice.lower is not None else None
+      hi = concrete(e.slice.upper, node, env, stale_sink, depth + 1) if e.slice.upper is not None else None
+      st = concrete(e.slice.step, node, env, stale_sink, depth + 1) if e.slice.step is not None else None
+      return list(base)[lo:hi:st]
+    if isinstance(e, ast.Call):
+      fn_ = dotted(e.func) or ''
+      args = [concrete(a, node, env, stale_sink, depth + 1) for a in e.args]
+      if fn_ == 'len' and len(args) == 1:
+        return len(args[0])
+      if fn_ in ('min', 'max') and args:
+        return (min if fn_ == 'min' else max)(*args) if len(args) > 1 else (min if fn_ == 'min' else max)(args[0])
+      if fn_ in ('reversed', 'list', 'tuple', 'sorted') and len(args) == 1:
+        return list(reversed(args[0])) if fn_ == 'reversed' else list(args[0])
+      if fn_ in ('itertools.islice',) and len(args) == 2:
+        return list(args[0])[:args[1]]
+      raise _NoEval(f'call `{fn_}`')
+    if isinstance(e, ast.BinOp) and isinstance(e.op, (ast.Add, ast.Sub)):
+      l, r = concrete(e.left, node, env, stale_sink, depth + 1), concrete(e.right, node, env, stale_sink, depth + 1)
+      return l + r if isinstance(e.op, ast.Add) else l - r
+    if isinstance(e, ast.UnaryOp) and isinstance(e.op, ast.USub):
+      return -concrete(e.operand, node, env, stale_sink, depth + 1)
+    raise _NoEval(f'expression `{unparse(e, 40)}`')
+
+  def base_list(e: ast.AST, node, depth=0) -> Optional[str]:
+    """Name of the list an iterable expression draws from (through slices / reversed / locals)."""
+    if depth > 8:
+      return None
+    if isinstance(e, ast.Name):
+      defs = [d for d in rd.at(node, e.id) if d.node_id >= 0 and d.value is not None and d.kind == 'assign']
+      if len(defs) == 1 and isinstance(defs[0].value, (ast.Subscript, ast.Call)) and not (
+          isinstance(defs[0].value, ast.Call) and not (dotted(defs[0].value.func) or '') in ('reversed', 'list', 'sorted', 'tuple')):
+        inner = base_list(defs[0].value, g.nodes[defs[0].node_id], depth + 1)
+        if inner:
+          return inner
+      return e.id
+    if isinstance(e, ast.Subscript):
+      return base_list(e.value, node, depth + 1)
+    if isinstance(e, ast.Call) and (dotted(e.func) or '') in ('reversed', 'list', 'sorted', 'tuple') and e.args:
+      return base_list(e.args[0], node, depth + 1)
+    return None
+
+  handouts = []  # (loop ast, list name, form, iter expr, node)
   for n in g.nodes:
     if n.kind == 'stmt' and isinstance(n.ast, ast.Assign) and isinstance(n.ast.value, ast.Call) \
         and isinstance(n.ast.value.func, ast.Attribute) and n.ast.value.func.attr == 'pop' \
@@ -284,21 +360,21 @@ def r45_handout(ctx, svc, fi, g, dom, prov, algo, out_lists) -> None:
       lst = n.ast.value.func.value.id
       handouts.append((n.loops[-1], lst, 'pop', None, n))
     if n.kind == 'for' and any(a in g.reachable([n]) for a in appenders if a.loops and a.loops[-1] is n.ast):
-      it = n.ast.iter
-      if isinstance(it, ast.Subscript) and isinstance(it.value, ast.Name) and isinstance(it.slice, ast.Slice) \
-          and it.slice.lower is None and it.slice.upper is not None:
-        handouts.append((n.ast, it.value.id, 'slice', it.slice.upper, n))
-      elif isinstance(it, ast.Name):
-        handouts.append((n.ast, it.id, 'all', None, n))
+      bl = base_list(n.ast.iter, n)
+      if bl is None:
+        raise AnalysisError(f'SuggestTrials: iterable of the hand-out loop at line {n.lineno} not understood')
+      handouts.append((n.ast, bl, 'iter', n.ast.iter, n))
   if len(handouts) < 2:
     raise AnalysisError(f'SuggestTrials: only {len(handouts)} hand-out loops recognised (pool and algorithm output)')
   helper = C06.OpTypestate.__new__(C06.OpTypestate)
   algo_handout = None
-  for loop, lst, form, bound, n in handouts:
+  GRID = [(N, M) for N in range(0, 6) for M in range(-1, 8)]
+  for loop, lst, form, itexpr, n in handouts:
     inst = f'hand-out loop over `{lst}` at line {loop.lineno}'
-    is_algo = any(isinstance(x, ast.Name) and x.id == lst and from_algo(x, n) for x in ast.walk(n.ast))
+    is_algo = any(from_algo(x, n) for x in [ast.copy_location(ast.Name(id=lst, ctx=ast.Load()), n.ast)]) if False else \
+        any(isinstance(x, ast.Name) and from_algo(x, n) for x in ast.walk(n.ast.iter if form == 'iter' else n.ast))
     if is_algo:
-      algo_handout = (loop, lst, form, bound, n)
+      algo_handout = (loop, lst, form, itexpr, n)
     if form == 'pop':
       ctx.check(C06.OpTypestate._pop_guarded(helper, n, lst), 'R5', f'{lst}.pop() at line {n.lineno}',
                 where(fi, n), 'loop condition tests the list for emptiness',
@@ -310,38 +386,42 @@ def r45_handout(ctx, svc, fi, g, dom, prov, algo, out_lists) -> None:
                 'loop runs while request.suggestion_count > len(<hand-out list>)',
                 'the loop condition does not compare request.suggestion_count with the current length of the hand-out list: '
                 'more (or fewer) than the requested number of trials are handed out', construct=f'{lst}:bound', func=fi.qualname)
-    elif form == 'slice':
-      # the slice bound must be the missing count computed after the last append to the hand-out list
-      vals = []
-      if isinstance(bound, ast.Name):
-        defs = [d for d in rd.at(n, bound.id)]
-        vals = [(d.value, g.nodes[d.node_id]) for d in defs if d.node_id >= 0 and d.value is not None]
-        fresh_shape = bool(vals) and all(_is_missing_count(v, out_lists) for v, _ in vals)
-      else:
-        vals = [(bound, n)]
-        fresh_shape = _is_missing_count(bound, out_lists)
-      stale = None
-      for v, dn in vals:
-        if dn is n:
-          continue
-        after_def = g.reachable([dn])
-        for a in appenders:
-          if a in after_def and n in g.reachable([a]) and not (a.loops and a.loops[-1] is loop):
-            stale = a
-      ctx.check(fresh_shape and stale is None, 'R5', inst + ': bounded by the current missing count', where(fi, n),
-                'slice bound is request.suggestion_count - len(<hand-out list>) with no hand-out in between',
-                (f'the slice bound `{unparse(bound, 40)}` was computed before the hand-out list grew (append at line '
-                 f'{stale.lineno}): it still counts trials that were already filled from an earlier source, so the worker '
-                 'gets more than the requested number of trials and fewer surplus suggestions are queued') if stale is not None else
-                f'the slice bound `{unparse(bound, 40)}` is not request.suggestion_count - len(<hand-out list>)',
-                construct=f'{lst}:stale-bound', func=fi.qualname)
-    else:
+      continue
+    # for-loop over a slice / reversed slice: evaluate the slice arithmetic on a finite model
+    sink: List = []
+    wrong = None
+    try:
+      for N, M in GRID:
+        got = concrete(itexpr, n, {lst: list(range(N)), 'M': M}, sink)
+        if len(got) != min(N, max(M, 0)) or len(set(got)) != len(got):
+          wrong = (N, M, len(got))
+          break
+    except _NoEval as e:
+      raise AnalysisError(f'{inst}: cannot evaluate `{unparse(itexpr, 60)}` ({e})')
+    stale = None
+    for e_, dn in sink:
+      if dn is n:
+        continue
+      after_def = g.reachable([dn])
+      for a in appenders:
+        if a in after_def and n in g.reachable([a]) and not (a.loops and a.loops[-1] is loop):
+          stale = a
+    if stale is not None:
       ctx.bad('R5', inst + ': bounded by the current missing count', where(fi, n),
-              f'every element of `{lst}` is handed out, regardless of request.suggestion_count', construct=f'{lst}:unbounded',
-              func=fi.qualname)
+              f'the number of elements handed out is computed from a missing count taken before the hand-out list grew (append at line '
+              f'{stale.lineno}): it still counts trials that were already filled from an earlier source, so the worker '
+              'gets more than the requested number of trials and fewer surplus suggestions are queued',
+              construct=f'{lst}:stale-bound', func=fi.qualname)
+    else:
+      ctx.check(wrong is None and bool(sink), 'R5', inst + ': bounded by the current missing count', where(fi, n),
+                'hands out min(len(list), missing) distinct elements for every list length and missing count (finite model 0..5 x -1..7)',
+                (f'with {wrong[0]} elements available and {wrong[1]} missing the loop hands out {wrong[2]} elements'
+                 if wrong else f'`{unparse(itexpr, 50)}` does not depend on request.suggestion_count - len(<hand-out list>)') +
+                ': more (or fewer) than the requested number of trials are handed out',
+                construct=f'{lst}:bound', func=fi.qualname)
   if algo_handout is None:
     raise AnalysisError('SuggestTrials: hand-out loop over the algorithm output not found')
-  hloop, lst, form, bound, hn = algo_handout
+  hloop, lst, form, hiter, hn = algo_handout
   # R4: the remainder of the algorithm output is queued as REQUESTED
   ok4 = False
   detail = 'no loop over the remaining algorithm output stores it as REQUESTED'
@@ -350,15 +430,7 @@ def r45_handout(ctx, svc, fi, g, dom, prov, algo, out_lists) -> None:
   for n in g.nodes:
     if n.kind != 'for' or not isinstance(n.ast.target, ast.Name) or n.ast is hloop:
       continue
-    it = n.ast.iter
-    rest = None
-    if form == 'pop' and isinstance(it, ast.Name) and it.id == lst:
-      rest = 'whole list after the pops'
-    if form == 'slice' and isinstance(it, ast.Subscript) and isinstance(it.value, ast.Name) and it.value.id == lst \
-        and isinstance(it.slice, ast.Slice) and it.slice.upper is None and it.slice.lower is not None \
-        and unparse(it.slice.lower, 0) == unparse(bound, 0):
-      rest = 'complementary slice'
-    if rest is None:
+    if base_list(n.ast.iter, n) != lst:
       continue
     v = n.ast.target.id
     body = n.ast.body
@@ -367,15 +439,34 @@ def r45_handout(ctx, svc, fi, g, dom, prov, algo, out_lists) -> None:
     req = any(isinstance(st, ast.Assign) and any(dotted(t) == f'{v}.state' for t in st.targets)
               and (dotted(st.value) or '').endswith('.REQUESTED')
               for top in body for st in ast.walk(top))
+    if not (creates and req):
+      continue
+    # partition: handed-out part and queued part are disjoint and cover the algorithm output
+    part_ok = True
+    if form == 'pop':
+      part_ok = isinstance(n.ast.iter, ast.Name) and n.ast.iter.id == lst  # the pops removed what was handed out
+    else:
+      try:
+        for N, M in GRID:
+          env = {lst: list(range(N)), 'M': M}
+          h = concrete(hiter, hn, env, [])
+          r = concrete(n.ast.iter, n, env, [])
+          if sorted(h + r) != list(range(N)):
+            part_ok = False
+            detail = (f'with {N} suggestions delivered and {M} missing, {len(h)} are handed out and {len(r)} queued: '
+                      'some suggestions are dropped or stored twice')
+            break
+      except _NoEval as e:
+        raise AnalysisError(f'surplus loop at line {n.lineno}: cannot evaluate `{unparse(n.ast.iter, 60)}` ({e})')
     after = g.reachable([hn])
     through = bool(succ_rets) and all(n.id in dom[m.id] for m in succ_rets if m in after)
-    if creates and req and through:
+    if part_ok and through:
       ok4 = True
-    elif creates and req:
+    elif part_ok:
       detail = 'a normal path from the hand-out loop to a return bypasses the surplus loop'
   ctx.check(ok4, 'R4', 'surplus algorithm output queued as REQUESTED', fi.node,
-            'a for-loop over the rest of the algorithm output creates each element as REQUESTED and dominates every '
-            'normal return after the hand-out',
+            'a for-loop over the rest of the algorithm output creates each element as REQUESTED, is disjoint from and complementary '
+            'to the hand-out, and dominates every normal return after the hand-out',
             detail + ': surplus suggestions are dropped', construct='surplus-loop', func=fi.qualname)
 
 
